@@ -318,6 +318,14 @@ func (rw *rewriter) file(f *ast.File, fname string) bool {
 			if *flagYields {
 				n.Body.List = append([]ast.Stmt{rw.yieldStmt("loop", n.Pos())}, n.Body.List...)
 			}
+		case *ast.BlockStmt:
+			if *flagYields {
+				n.List = rw.atomicYields(n.List)
+			}
+		case *ast.CaseClause:
+			if *flagYields {
+				n.Body = rw.atomicYields(n.Body)
+			}
 		case *ast.RangeStmt:
 			rw.rangeStmt(n)
 		case *ast.SelectStmt:
@@ -390,6 +398,95 @@ func recvName(e ast.Expr) string {
 		return recvName(t.X)
 	}
 	return "?"
+}
+
+// atomicYields puts a yield point before every statement that performs an operation of sync/atomic
+// or of a sync.Map (synchronisation operations are where the order of two callers matters most:
+// two adjacent atomic operations are not one atomic operation).
+func (rw *rewriter) atomicYields(list []ast.Stmt) []ast.Stmt {
+	var out []ast.Stmt
+	changed := false
+	for _, st := range list {
+		if rw.hasAtomicOp(st) {
+			out = append(out, rw.yieldStmt("atomic", st.Pos()))
+			changed = true
+		}
+		out = append(out, st)
+	}
+	if !changed {
+		return list
+	}
+	return out
+}
+
+func (rw *rewriter) hasAtomicOp(st ast.Stmt) bool {
+	switch st.(type) {
+	case *ast.BlockStmt, *ast.IfStmt, *ast.ForStmt, *ast.RangeStmt, *ast.SwitchStmt, *ast.TypeSwitchStmt, *ast.SelectStmt, *ast.LabeledStmt:
+		// compound statements: their own blocks are visited separately (an if condition is the exception, handled below)
+		if is, ok := st.(*ast.IfStmt); ok {
+			found := false
+			for _, e := range []ast.Node{is.Init, is.Cond} {
+				if e != nil && !isNilNode(e) && rw.exprHasAtomicOp(e) {
+					found = true
+				}
+			}
+			return found
+		}
+		return false
+	}
+	return rw.exprHasAtomicOp(st)
+}
+
+func isNilNode(n ast.Node) bool {
+	switch v := n.(type) {
+	case ast.Stmt:
+		return v == nil
+	case ast.Expr:
+		return v == nil
+	}
+	return false
+}
+
+func (rw *rewriter) exprHasAtomicOp(n ast.Node) bool {
+	found := false
+	ast.Inspect(n, func(x ast.Node) bool {
+		if found || x == nil {
+			return false
+		}
+		if _, ok := x.(*ast.FuncLit); ok {
+			return false
+		}
+		call, ok := x.(*ast.CallExpr)
+		if !ok {
+			return true
+		}
+		sel, ok := call.Fun.(*ast.SelectorExpr)
+		if !ok {
+			return true
+		}
+		if s, ok := rw.info.Selections[sel]; ok {
+			if fn, ok := s.Obj().(*types.Func); ok && fn.Pkg() != nil {
+				switch fn.Pkg().Path() {
+				case "sync/atomic":
+					found = true
+				case "sync":
+					if sig, ok := fn.Type().(*types.Signature); ok && sig.Recv() != nil {
+						if named, ok := deref(sig.Recv().Type()).(*types.Named); ok && named.Obj().Name() == "Map" {
+							found = true
+						}
+					}
+				}
+			}
+			return true
+		}
+		if id, ok := sel.X.(*ast.Ident); ok {
+			if pn, ok := rw.info.Uses[id].(*types.PkgName); ok && pn.Imported().Path() == "sync/atomic" {
+				found = true
+			}
+		}
+		return true
+	})
+	return found
 }
 
 // loggerNew: logrus.New() of the code under test -> a logger whose output passes through the
